@@ -11,14 +11,19 @@ PROPS['C06'] = {
              'rapid and replayed as public builder calls; oracle = abstract label machine, observable-trace and return '
              'equality on one solved input per reachable branch of every jump plus 8 random inputs; evaluations = '
              'programs + inputs run; a case is non-trivial iff the assembled program is longer than the label program '
-             '(>= 1 bridge) and at least one run went through a far jump or an inserted bridge; distinct by hash of '
+             '(>= 1 bridge) and at least one run went through a far jump or an inserted bridge; in 3/7 of the cases Assemble is called 2-3 times on the same Program and the last list is judged; '
+             'unit policy-size (metamorphic, no model): a small policy and the same policy padded with 1..330 unrelated names (new group in front / at the end / into a group) must answer every own-architecture, '
+             'foreign-architecture and x32 event alike; non-trivial iff the padding takes the program across 255 instructions; distinct by hash of '
              'the case JSON'),
     'assumptions': ['golang.org/x/net/bpf.Assemble encodes instructions faithfully (it is what LoadFilter uses)',
                     'independent interpreter internal/cbpf implements classic BPF semantics'],
     'required_classes': {'all': ['has-bridge', 'both-branches-far', 'far-nonreturn-target', 'skip-255', 'skip-256',
-                                 'label-with-3+-far-jumps']},
+                                 'label-with-3+-far-jumps', 'assembled-more-than-once', 'padding-crosses-255-instructions',
+                                 'crossing-with-foreign-architecture-events', 'crossing-with-x32-events', 'crossing-with-errno-default']},
     'units': [
         {'test': 'TestC06Labels', 'checks': {'quick': 6400, 'thorough': 48000}, 'shards': {'quick': 16, 'thorough': 16},
+         'timeout': {'quick': 300, 'thorough': 3000}},
+        {'test': 'TestC06PolicySize', 'checks': {'quick': 4800, 'thorough': 400000}, 'shards': {'quick': 16, 'thorough': 16},
          'timeout': {'quick': 300, 'thorough': 3000}},
     ],
 }
@@ -270,6 +275,7 @@ PROPS['C19'] = {
         {'test': 'TestC19CrossBuild', 'timeout': {'quick': 900, 'thorough': 900}},
         {'test': 'TestC19Transplant', 'timeout': {'quick': 600, 'thorough': 900}},
         {'test': 'TestC19ArchDigest', 'helpers': ['digest', {'name': 'digest', 'goarch': '386'}], 'timeout': {'quick': 300, 'thorough': 900}},
+        {'test': 'TestC19JsWasm', 'timeout': {'quick': 600, 'thorough': 900}},
     ],
 }
 MANIFEST_TEXT['C19'] = {'claim': 'compile-time constant assertions built under every GOOS/GOARCH pair of the toolchain (complete enumeration); unsupported-architecture behaviour for every GOARCH without tables; non-Linux stub sources transplanted to the host and executed against generated policies',
@@ -352,10 +358,11 @@ PROPS['C11'] = {
              'with 0..32 spinning goroutines and GOMAXPROCS in {1,2,4}, caller unlocked or already locked to its thread, one fresh child each; hooks record thread id and no_new_privs at the schedule point and '
              'immediately before seccomp(2); a control goroutine performs the same perturbation unpinned and reports whether it migrated; oracle: requested => load returns nil (also unprivileged), bit set on the '
              'installing thread at install time, same thread as the prctl; not requested => no thread\'s bit changes, unprivileged load fails and installs nothing, privileged load succeeds; strace (10%): '
-             'prctl then seccomp with the same tid; a case is non-trivial iff unprivileged, requested and the control goroutine migrated under the same perturbation; 1/4 of the cases are histories with 1-2 earlier no_new_privs loads on other pre-existing threads; distinct by hash of the case JSON'),
+             'prctl then seccomp with the same tid; a case is non-trivial iff unprivileged, requested and the control goroutine migrated under the same perturbation; 1/4 of the cases are histories with 1-2 earlier no_new_privs loads on other pre-existing threads; 1/4 give the calling thread itself a past (as root a filter without the bit; a filter with the bit; or an enclosing filter that answers EPERM to prctl(PR_SET_NO_NEW_PRIVS), in which case a requested bit cannot be set and nothing may be installed); distinct by hash of the case JSON'),
     'assumptions': _KERNEL_ASSUMPTIONS + ['the decisive goroutine schedule is forced through the schedule-point hook; other schedules are not enumerated'],
     'required_classes': {'all': ['uid:%d/nnp:%s' % (u, n) for u in (0, 65534) for n in ('true', 'false')] +
-                         ['unprivileged+nnp+migrating-perturbation', 'unprivileged-load-refused', 'control-goroutine-migrated', 'strace-order-and-thread', 'after-loads-on-other-threads']},
+                         ['unprivileged+nnp+migrating-perturbation', 'unprivileged-load-refused', 'control-goroutine-migrated', 'strace-order-and-thread', 'after-loads-on-other-threads',
+                          'calling-thread:prior-no-nnp/nnp:true', 'calling-thread:prior-nnp/nnp:false', 'calling-thread:prctl-denied/nnp:true']},
     'units': [
         {'test': 'TestC11NoNewPrivs', 'checks': {'quick': 640, 'thorough': 64000}, 'shards': {'quick': 16, 'thorough': 16}, 'helpers': _KCHILD,
          'timeout': {'quick': 500, 'thorough': 3300}},
@@ -397,14 +404,17 @@ PROPS['C16'] = {
              'truncate = a model listing cut at a generated byte; unreadable = directory, /proc/self/mem, missing file; oracle: never panics; unreadable => error; overlong => error, or the result equals the result of the parts before and after '
              '(really read to the end); every result has Name == table[Num]; a result\'s number must be loaded by an instruction of the function it is attributed to; canonical sites (load directly followed by the trigger) are found; '
              'function-concatenation law Extract(F1++F2) == Extract(F1)++Extract(F2) at every split point; a case is non-trivial iff it has >= 2 functions and >= 1 reported site, or is of kind text/overlong/unreadable/a real truncation; '
-             'symbols with blanks as printed for generic shapes, numbers with one of bits 20..31 set; distinct by hash of the case JSON'),
+             'symbols with blanks as printed for generic shapes, numbers with one of bits 20..31 set; unit sequence: a main text (2/3 of them start inside a function: no TEXT line before a bare site) is extracted, then another text '
+             '(for the same or the other parser, often ending inside a function with a dangling number load), then the main text twice more: the three results must be equal (extraction is a function of the text alone); distinct by hash of the case JSON'),
     'assumptions': ['the site model is written from the documented instruction shapes; only containment (possible numbers per function) and canonical sites are asserted, never equality with a reference parser'],
     'required_classes': {'all': ['kind:model', 'kind:text', 'kind:overlong', 'kind:truncate', 'kind:unreadable', 'scope-bait', 'item:raw', 'item:wrapper', 'item:xor', 'item:bare', 'item:load-only',
                                  'overlong-line:first', 'overlong-line:middle', 'overlong-line:last', 'TEXT-only-line', 'trigger-line-with-fewer-than-3-fields', 'parser:i386', 'parser:x86_64',
-                                 'trigger-inside-a-wrapper-function', 'unreadable:<dir>', 'unreadable:/proc/self/mem', 'unsupported-parser-arch']},
+                                 'trigger-inside-a-wrapper-function', 'unreadable:<dir>', 'unreadable:/proc/self/mem', 'unsupported-parser-arch',
+                                 'kind:sequence', 'main-text-starts-inside-a-function', 'earlier-text-ends-inside-a-function', 'earlier-text-for-the-same-parser']},
     'units': [
         {'test': 'TestC16Extraction', 'checks': {'quick': 24000, 'thorough': 240000}, 'shards': {'quick': 16, 'thorough': 16}, 'timeout': {'quick': 300, 'thorough': 3000}},
         {'test': 'TestC16UnsupportedArch', 'timeout': {'quick': 60, 'thorough': 60}},
+        {'test': 'TestC16Sequences', 'checks': {'quick': 3200, 'thorough': 160000}, 'shards': {'quick': 16, 'thorough': 16}, 'timeout': {'quick': 300, 'thorough': 3000}},
     ],
 }
 MANIFEST_TEXT['C16'] = {'claim': 'generated listings from a site model, hostile text, overlong lines at every position class, truncations and unreadable paths against both parsers; no panic, error instead of partial result, function scoping, table membership and the function-concatenation law',
